@@ -41,6 +41,7 @@ class Canon(object):
         self.user_names = user_names
         self.ac = ac
         self.memo = {}
+        self.arr = {}       # node -> (base key, {index key: value key}) for constant-indexed array terms
 
     def _sym(self, f):
         name = f.symbol_name()
@@ -98,9 +99,28 @@ class Canon(object):
             elif nt == op.ARRAY_VALUE:
                 payload = (tkey(f.array_value_index_type()),)
                 pairs = sorted(zip(ks[1::2], ks[2::2]))
+                if self.ac:
+                    # a constant array with assignments and the chain of stores pySMT prints (and
+                    # reads back) for it are the same array: key = constant base + unordered,
+                    # default-free assignment map
+                    base = _h("constarray", payload, ks[0])
+                    amap = dict((k_, v_) for k_, v_ in pairs if v_ != ks[0])
+                    self.arr[f] = (base, amap, ks[0])
+                    memo[f] = _h("arr", base, tuple(sorted(amap.items())))
+                    continue
                 ks = [ks[0]] + [x for p in pairs for x in p]
             elif nt >= op.ALL_TYPES[-1] + 1:
                 payload = ("custom",)
+            elif nt == op.ARRAY_STORE and self.ac and f.arg(1).is_constant() and f.arg(0) in self.arr:
+                base, amap, dflt = self.arr[f.arg(0)]
+                amap = dict(amap)
+                if memo[f.arg(2)] == dflt:
+                    amap.pop(memo[f.arg(1)], None)
+                else:
+                    amap[memo[f.arg(1)]] = memo[f.arg(2)]
+                self.arr[f] = (base, amap, dflt)
+                memo[f] = _h("arr", base, tuple(sorted(amap.items())))
+                continue
             elif nt == op.ARRAY_STORE:
                 # a chain of stores at pairwise distinct constant indices is an unordered
                 # set of assignments (pySMT prints constant-array values as such chains in
